@@ -1,6 +1,7 @@
 package main
 
 import (
+	"fmt"
 	"go/parser"
 	"go/token"
 	"go/types"
@@ -55,6 +56,19 @@ func (fr *Frame) intrinsic(fn *ssa.Function, args []Val, p token.Pos) ([]Val, bo
 		fr.cx.trust("bin.UnsafeCastStruct(to, b): *to = &b[0] (nil when len(b)==0); the struct view and the byte view of the same memory are not related to each other")
 		to, buf := args[0], args[1]
 		cell := w.iptr(to.t)
+		if it := def(w.itype(to.t)); isLit(it) {
+			var id int
+			fmt.Sscan(it.op, &id)
+			if id >= 1 && id <= len(w.typeList) {
+				if pp, ok := w.typeList[id-1].Underlying().(*types.Pointer); ok {
+					if p2, ok := pp.Elem().Underlying().(*types.Pointer); ok {
+						sz := types.SizesFor("gc", "amd64").Sizeof(p2.Elem())
+						ln := w.slen(buf.t)
+						fr.safety("cast-bounds", p, b.Or(b.Eq(ln, b.BV(0, 64)), b.BVCmp("bvsge", ln, b.BV(uint64(sz), 64))))
+					}
+				}
+			}
+		}
 		ptr := b.Ite(b.Eq(w.slen(buf.t), b.BV(0, 64)), b.Nil(), b.Elem(w.sbase(buf.t), w.soff(buf.t)))
 		hn := w.heapName(SLoc)
 		fr.st.set(hn, b.Name(hn, b.Store(fr.st.heap(fr.cx, hn), cell, ptr)))
